@@ -587,6 +587,39 @@ Proof.
   intros HI Hw. destruct (step_Good st o HI Hw) as (A & B & _). apply Inv_split. now split.
 Qed.
 
+(* the boolean checker the correspondence run evaluates on every generated operation is sound *)
+Lemma alg_eqb_eq a b : alg_eqb a b = true <-> a = b.
+Proof. destruct a, b; simpl; split; intros; try reflexivity; try discriminate. Qed.
+
+Lemma canonical_b_sound b : canonical_b b = true -> canonical b.
+Proof.
+  unfold canonical_b. destruct (from_bytes None b) as [t|c]; [|discriminate].
+  intros E. apply list_N_eqb_spec in E. now exists t.
+Qed.
+
+Lemma named_ok_b_sound a k b : named_ok_b H a k b = true -> named_ok a k b.
+Proof.
+  unfold named_ok_b, named_ok. destruct (is_dir_oid k).
+  - intros E. apply andb_true_iff in E as [E1 E2]. apply list_N_eqb_spec in E1.
+    split; [exact E1|now apply canonical_b_sound].
+  - intros E. now apply list_N_eqb_spec.
+Qed.
+
+Lemma wf_op_b_sound st o : wf_op_b H st o = true -> WfOp st o.
+Proof.
+  destruct o as [si w|si w|si b k|src dst ids sh|si dirs files|src dst order hard]; simpl.
+  - destruct w; [trivial|]. intros E s Hs. rewrite Hs in E.
+    intros Ha. rewrite Ha in E. discriminate.
+  - destruct w; [trivial|]. intros E s Hs. rewrite Hs in E.
+    intros Ha. rewrite Ha in E. discriminate.
+  - intros E s Hs. rewrite Hs in E. now apply named_ok_b_sound.
+  - intros E s d Hs Hd. rewrite Hs, Hd in E. now apply alg_eqb_eq.
+  - intros E s Hs. rewrite Hs in E. apply andb_true_iff in E as [E1 E2]. split.
+    + intros f Hin. rewrite forallb_forall in E1. specialize (E1 f Hin). now apply list_N_eqb_spec.
+    + intros Hd Ha. destruct dirs; [now apply Hd|]. rewrite Ha in E2. discriminate.
+  - trivial.
+Qed.
+
 (* the algorithm (and position) of every store is fixed for the whole history *)
 Theorem C01_step_alg st o j : Inv st -> WfOp st o -> alg_at (step H st o) j = alg_at st j.
 Proof. intros HI Hw. apply (step_Good st o HI Hw). Qed.
@@ -604,6 +637,12 @@ Proof.
   destruct Hw as [Ho Hr]. apply IH; [now apply C01_step|exact Hr].
 Qed.
 
+Lemma wf_hist_b_sound st ops : wf_hist_b H st ops = true -> WfHist st ops.
+Proof.
+  revert st. induction ops as [|o r IH]; intros st E; simpl in *; [trivial|].
+  apply andb_true_iff in E as [E1 E2]. split; [now apply wf_op_b_sound|now apply IH].
+Qed.
+
 (* checked "after every step": every prefix of the history ends in a state satisfying Inv *)
 Theorem C01_history cfg ops n :
   WfHist (init_state cfg) ops -> Inv (fold_left (step H) (firstn n ops) (init_state cfg)).
@@ -613,5 +652,10 @@ Proof.
   induction ops as [|o r IH]; intros st n Hw; destruct n; simpl; auto.
   destruct Hw as [Ho Hr]. split; [exact Ho|]. now apply IH.
 Qed.
+
+(* the same with the decidable side condition the harness has Coq evaluate on its histories *)
+Theorem C01_history_checked cfg ops n :
+  wf_hist_b H (init_state cfg) ops = true -> Inv (fold_left (step H) (firstn n ops) (init_state cfg)).
+Proof. intros E. apply C01_history. now apply wf_hist_b_sound. Qed.
 
 End Proofs.
